@@ -828,23 +828,27 @@ func (x *Exec) evalCall(e *Expr, env *Env) Val {
 			return specBool("true")
 		}
 		return specBool("false")
+	case "callarg":
+		// callarg(f, i): argument i (receiver first) of the latest direct call of f on this path
+		if len(e.Args) != 2 {
+			bail("callarg(f, i) expects a function name and an argument index")
+		}
+		av, ok := env.st.callVals["arg:"+calleeName(e.Args[0])+":"+e.Args[1].String()]
+		if !ok {
+			bail("unknown identifier: callarg(%s, %s): no such call on this path", calleeName(e.Args[0]), e.Args[1].String())
+		}
+		return av
 	case "callret":
 		// callret(f, i): result i of the latest direct call of f on this path (errors, integers, booleans)
 		if len(e.Args) != 2 {
 			bail("callret(f, i) expects a function name and a result index")
 		}
 		nm, idx := calleeName(e.Args[0]), e.Args[1].String()
-		t, ok := env.st.ghost["callret:"+nm+":"+idx]
+		v, ok := env.st.callVals[nm+":"+idx]
 		if !ok {
 			bail("unknown identifier: callret(%s, %s): no such call on this path", nm, idx)
 		}
-		switch env.st.ghost["callretk:"+nm+":"+idx] {
-		case fmt.Sprint(int(KErr)):
-			return Val{K: KErr, T: t, Typ: types.Universe.Lookup("error").Type()}
-		case fmt.Sprint(int(KBool)):
-			return specBool(t)
-		}
-		return specInt(t)
+		return v
 	case "egerr":
 		// egerr(g): the first error returned by a worker of errgroup g so far (nil if none)
 		h := x.heapFor(env, "G_egerr", "(Array Int Err)")
